@@ -31,7 +31,7 @@ SUITE=ok; go test -vet=off -count=1 ./... >/tmp/eval-suite.log 2>&1 || { go test
 DEMOWITH=skip; DEMOWITHOUT=skip
 if [ -n "$DEMO" ] && [ -n "$PKGDIR" ]; then
   cp $DEMO $W/$PKGDIR/zz_mutant_demo_test.go
-  FLAGS=""; grep -q -- "-race" $SRC/$X.md 2>/dev/null && FLAGS="-race"
+  FLAGS=""; grep -q -- "-race" $SRC/$X.md $SRC/notes.md 2>/dev/null && FLAGS="-race"
   DEMOWITH=passes; go test $FLAGS -vet=off -count=1 -run "[Mm]utant" ./$PKGDIR/ >/tmp/eval-demo1.log 2>&1 || DEMOWITH=fails
   git apply -R $DIFF
   DEMOWITHOUT=passes; go test $FLAGS -vet=off -count=1 -run "[Mm]utant" ./$PKGDIR/ >/tmp/eval-demo2.log 2>&1 || DEMOWITHOUT=fails
